@@ -17,10 +17,14 @@ fn main() {
 }
 
 fn c13(c: &vsexp::Sexp) -> vsexp::Sexp {
+    // transport framing: header lengths of the request / response frames. Ops 10, 11 and 18
+    // name them in the case; every other op gets a deterministic pair derived from the case.
+    let h = c.to_string().len();
+    looprt::FRAME.with(|f| f.set((h % 10, (h / 10) % 10)));
     match c.at(0).num() {
         0..=6 | 16 => errs::run(c),
         7..=9 => glue::run(c),
-        10..=15 | 17 => fns::run(c),
+        10..=15 | 17 | 18 => fns::run(c),
         _ => vsexp::Lst(vec![]),
     }
 }
